@@ -188,6 +188,11 @@ class C13(HistCheck):
             if toolarge:
                 bump(res, 'root-too-large')
                 continue
+            if answer_of(e['out']) not in ('sat', 'unsat'):
+                # unknown: the solver gave up (e.g. arithmetic overflow, or it refuses to continue after one); it makes no
+                # claim about what it handed to the search engine, and may not have handed over anything
+                bump(res, 'answer-not-definitive')
+                continue
             snap = snaps[i]
             live = set(snap['frames'])
             G = [t for (fid, t) in roots if fid in live]
